@@ -323,6 +323,8 @@ class World:
             return SV(V.ListV(self.ghost_seq(it, name)), 'list:tuple')
         if name == 'inv':
             return PV('inv', None)
+        if name == 'open' and 'open' in self.contracts:
+            return PV('abstract', {'contract': 'open', 'bound': {}})
         if name in Builtins.NAMES:
             return PV('builtin', name)
         if name in ('True', 'False', 'None'):
@@ -423,6 +425,9 @@ class World:
             return PV('builtin', MODULE_FUNCS[full])
         if full in MODULE_CLASSES:
             return PV('class', MODULE_CLASSES[full])
+        if full in self.contracts and self.contracts[full].get('file') is None:
+            # an external function under an assumed contract of the sidecar file (listed as trusted)
+            return PV('abstract', {'contract': full, 'bound': {}})
         raise Unsupported(f'module attribute {full}')
 
     def pv_to_val(self, it, v):
@@ -830,6 +835,10 @@ class World:
                 res = SV(it.fresh('res', Val), _static_ty(c.get('result_type')))
             if c.get('result_kind'):
                 it.assume(self.kind_pred(it, res.t, c['result_kind']))
+            elif c.get('result_type') in self.classes and not self.classes[c['result_type']].get('abstract'):
+                # a declared (non-optional) class result is an object of that class
+                it.assume(self.kind_pred(it, res.t, c['result_type']))
+                res = SV(it.refine(res.t), res.ty)
             if c.get('result_abstract'):
                 ra = c['result_abstract']
                 res = PV('abstract', {'contract': ra['contract'], 'bound': {k: env[v] for k, v in ra['bound'].items()}})
@@ -1009,6 +1018,14 @@ class World:
                     env2['excval'] = res
                     for nme, text in raises.items():
                         it.oblige(f'{label}/raises.{nme}', guard(f'raises.{nme}', self.clause(it, text, env2, ctx)), kind='post')
+            # reachability (vacuity guard): each `reach` condition must be satisfiable at the end of some path
+            if case_name == 'contract':
+                for nme, text in (c.get('reach') or {}).items():
+                    on = 'exc' if nme.startswith('raises_') else 'ret'
+                    if on != outcome:
+                        continue
+                    f = it.refine(self.clause(it, text, env2, ctx, 'assume'))
+                    it.obligations.append(Obligation(f'{label}/reach.{nme}', it.axioms + it.pc, f, 'reach', it.pathname(), 0))
             # frame: fields not in `modifies` are unchanged
             if c.get('check_frame', True):
                 allowed = {f[5:] if f.startswith('self.') else f for f in c['modifies']}
